@@ -32,6 +32,9 @@ pub enum Case {
     Currency { tape: Vec<u32> },
     /// a literal text (fuzzer artifact): loaded as definitions, date patterns and currency JSON
     RawText(String),
+    /// a second load into a context that already holds the bundled definitions: it redefines a bundled
+    /// unit in terms of one of that unit's own aliases (`pick` selects the alias line of the bundled file)
+    SecondLoad { pick: u32, via: u8, form: u8 },
 }
 
 #[derive(Clone, Debug, Serialize, Deserialize, PartialEq, Eq)]
@@ -60,6 +63,12 @@ pub enum Injection {
     ComputedZeroProperty(u8),
     /// a number immediately followed by a non-ASCII numeric character (`10\u{b2}`, `2\u{bd}`)
     UnicodeNumericInNumber(u8),
+    /// a unit whose value is zero: legal to define; lists and conversions that divide by it must refuse, not crash
+    ZeroUnit(u8),
+    /// a unit named like a built-in word of the query language (`ans`, `_`): `search` finds it
+    ReservedName(u8),
+    /// a substance with a chemical symbol whose molar_mass is not a mass per amount: formulas using it
+    SymbolOddMolarMass(u8),
 }
 
 impl Injection {
@@ -149,9 +158,59 @@ impl Injection {
                 let v = ["10\u{b2}", "2\u{bd}", "10\u{663}", "1.5\u{b2}", "3\u{2460}", "1e\u{663}", "7\u{2155}", "1.\u{b9}"][*k as usize % 8];
                 (format!("und{}x {} ba\n", i, v), vec![], Some(format!("und{}x", i)))
             }
+            Injection::ZeroUnit(k) => {
+                let v = ["0", "0.0", "(1 - 1)", "(2^0.5 - 2^0.5)"][*k as usize % 4];
+                (
+                    format!("zu{}x {} ba\n", i, v),
+                    vec![],
+                    Some(format!("zu{i}x -> zu{i}x, zu{i}x;;3 ba -> zu{i}x;;3 ba -> zu{i}x, ba;;3 ba -> ba, zu{i}x;;1 / zu{i}x;;3 ba mod zu{i}x", i = i)),
+                )
+            }
+            Injection::ReservedName(k) => {
+                let n = ["ans", "_", "ans", "_"][*k as usize % 4];
+                let text = if k % 8 < 4 { format!("{} 3 ba\n", n) } else { format!("{} ? ba^2\n", n) };
+                (text, vec![], Some(format!("search {n};;{n};;3 {n};;units for {n};;search an", n = n)))
+            }
+            Injection::SymbolOddMolarMass(k) => {
+                let sym = ["Zq", "Zr", "Zs", "Zt", "Zv"][i % 5];
+                let mm = ["3 ba", "5", "2 ba^2", "1 ba / ba", "0 ba"][*k as usize % 5];
+                (
+                    format!("!symbol sy{i}x {sym}\nsy{i}x {{\n    molar_mass const msy{i}x {mm}\n}}\n", i = i, sym = sym, mm = mm),
+                    vec![],
+                    Some(format!("{s}2;;{s};;{s}{s};;{s}3{s};;molar_mass of {s}2;;3 ba {s}2", s = sym)),
+                )
+            }
         }
     }
 }
+
+/// queries run after every load of a (possibly damaged) bundled file or currency feed: one per evaluator
+/// path that looks something up in the database by a fixed name
+pub const PROBES: [&str; 20] = [
+    "1 + 1",
+    "3 foot -> m",
+    "#2020-01-01# + 1 day",
+    "kg",
+    "100 degF -> degC",
+    "3 degC",
+    "10 K -> degF",
+    "20 degR + 1 degN",
+    "search ans",
+    "search kg",
+    "3 s",
+    "1 year -> day, hour",
+    "3 m -> ft, in",
+    "units for length",
+    "H2O",
+    "molar_mass of NaCl",
+    "1 mol C2H6 -> g",
+    "2 hours -> s",
+    "1 EUR -> USD",
+    "3 km / 2 min -> mph",
+];
+
+/// the same for generated databases (which define none of the names the evaluator knows)
+pub const GENERATED_PROBES: [&str; 8] = ["1 + 1", "3 degC", "10 degF -> degR", "search ans", "search u0", "3 s", "H2O", "3 ba -> degC"];
 
 pub struct Env {
     pub sup: RefCell<Supervised>,
@@ -437,6 +496,24 @@ pub fn mutate_json(src: &str, tape: &[u32]) -> String {
     }
 }
 
+/// (alias, target) for every line `alias target` of the bundled definitions whose two words are plain names
+pub fn bundled_aliases() -> &'static Vec<(String, String)> {
+    static CELL: std::sync::OnceLock<Vec<(String, String)>> = std::sync::OnceLock::new();
+    CELL.get_or_init(|| {
+        let src = rink_core::DEFAULT_FILE.unwrap_or("");
+        let plain = |w: &str| !w.is_empty() && w.chars().all(|c| c.is_ascii_alphabetic() || c == '_') && w.len() > 1;
+        let mut out = vec![];
+        for l in src.lines() {
+            let l = l.split('#').next().unwrap_or("");
+            let toks: Vec<&str> = l.split_whitespace().collect();
+            if toks.len() == 2 && plain(toks[0]) && plain(toks[1]) && toks[0] != toks[1] {
+                out.push((toks[0].to_string(), toks[1].to_string()));
+            }
+        }
+        out
+    })
+}
+
 fn scale_text(kind: u8, n: usize) -> (String, Vec<String>, Option<(String, String)>) {
     // (text, error tokens, (name to look up, exact expected text))
     match kind % 5 {
@@ -484,6 +561,10 @@ pub fn check(env: &Env, c: &Case, st: &mut Stats) -> CaseResult {
                 st.excluded("text contains a literal exponent above 5000 (an astronomically large number, C04's resource clause)");
                 return Ok(());
             }
+            if crate::oracle::cost::has_huge_power(&text) && !crate::oracle::cost::has_huge_power(src) {
+                st.excluded("the edit made the text raise to a literal power above 5000 (an astronomically large number, C04's resource clause)");
+                return Ok(());
+            }
             st.eval();
             st.class(&format!("mutated_file_{}", file % 3));
             st.nontrivial(&(file % 3, tape));
@@ -503,7 +584,7 @@ pub fn check(env: &Env, c: &Case, st: &mut Stats) -> CaseResult {
                 st.class(if r["ok"].as_bool() == Some(true) { "mutated_loads_clean" } else { "mutated_reports_problems" });
             }
             // the context still answers
-            for q in ["1 + 1", "3 foot -> m", "#2020-01-01# + 1 day", "kg"] {
+            for q in PROBES {
                 if call(env, st, &json!({"cmd": "eval", "line": q, "save_prev": false, "pinned": true}), &format!("`{}` after {}", q, what))?.is_none() {
                     return Ok(());
                 }
@@ -521,7 +602,7 @@ pub fn check(env: &Env, c: &Case, st: &mut Stats) -> CaseResult {
                     expect.push((tokens, format!("{:?}", inj)));
                 }
                 if let Some(q) = q {
-                    queries.push(q);
+                    queries.extend(q.split(";;").map(|x| x.to_string()));
                 }
             }
             // chunk order: sort keys (identity when all zero)
@@ -575,7 +656,7 @@ pub fn check(env: &Env, c: &Case, st: &mut Stats) -> CaseResult {
                 }
                 checked += 1;
             }
-            for q in queries.iter().chain(std::iter::once(&"1 + 1".to_string())) {
+            for q in queries.iter().chain(GENERATED_PROBES.iter().map(|x| x.to_string()).collect::<Vec<_>>().iter()) {
                 if call(env, st, &json!({"cmd": "eval", "line": q, "save_prev": false, "pinned": true}), &format!("`{}` after {}\nfile:\n{}", q, what, text))?.is_none() {
                     return Ok(());
                 }
@@ -631,9 +712,69 @@ pub fn check(env: &Env, c: &Case, st: &mut Stats) -> CaseResult {
             }
             Ok(())
         }
+        Case::SecondLoad { pick, via, form } => {
+            let al = bundled_aliases();
+            if al.is_empty() {
+                return Err("[infrastructure] no alias lines found in the bundled definitions".into());
+            }
+            let (alias, target) = &al[((*pick as u64 * al.len() as u64) >> 32) as usize];
+            // (name, expression) pairs of the second load
+            let defs: Vec<(String, String)> = match form % 5 {
+                0 => vec![(target.clone(), alias.clone())],
+                1 => vec![(target.clone(), format!("1 {}", alias))],
+                2 => vec![("zzqa".to_string(), alias.clone()), (target.clone(), "zzqa".to_string())],
+                3 => vec![(target.clone(), alias.clone()), (alias.clone(), target.clone())],
+                _ => vec![(alias.clone(), alias.clone())],
+            };
+            st.eval();
+            st.class(&format!("second_load_form_{}_via_{}", form % 5, via % 2));
+            st.nontrivial(&(pick, via % 2, form % 5));
+            st.nt_sample(|| json!({"second_load": defs.clone(), "via": if via % 2 == 0 { "load_definitions" } else { "load_currency" }}));
+            if call(env, st, &json!({"cmd": "new_ctx", "pinned": true, "humanize": false}), "new context")?.is_none() {
+                return Ok(());
+            }
+            let what = format!("a second load redefining {:?} ({})", defs, if via % 2 == 0 { "load_definitions" } else { "load_currency" });
+            let cmd = if via % 2 == 0 {
+                let text: String = defs.iter().map(|(n, e)| format!("{} {}\n", n, e)).collect();
+                json!({"cmd": "load_defs", "text": text, "fresh": false})
+            } else {
+                let js = format!(
+                    "[{}]",
+                    defs.iter()
+                        .map(|(n, e)| format!("{{\"name\":\"{}\",\"doc\":null,\"category\":null,\"type\":\"unit\",\"expr\":\"{}\"}}", n, e))
+                        .collect::<Vec<_>>()
+                        .join(",")
+                );
+                json!({"cmd": "load_currency", "json": js, "base": ""})
+            };
+            if call(env, st, &cmd, &what)?.is_none() {
+                return Ok(());
+            }
+            let mut qs = vec![
+                target.clone(),
+                alias.clone(),
+                format!("3 {} -> {}", target, alias),
+                format!("3 {}", alias),
+                format!("search {}", target),
+                format!("1 {} -> {}, {}", target, target, alias),
+                format!("{}s", alias),
+                format!("k{}", target),
+            ];
+            qs.extend(PROBES.iter().take(6).map(|x| x.to_string()));
+            for q in qs {
+                if call(env, st, &json!({"cmd": "eval", "line": q, "save_prev": false, "pinned": true}), &format!("`{}` after {}", q, what))?.is_none() {
+                    return Ok(());
+                }
+            }
+            Ok(())
+        }
         Case::RawText(text) => {
             if crate::oracle::cost::has_huge_exponent(text) {
                 st.excluded("text contains a literal exponent above 5000");
+                return Ok(());
+            }
+            if crate::oracle::cost::has_huge_power(text) {
+                st.excluded("text raises to a literal power above 5000 (an astronomically large number, C04's resource clause)");
                 return Ok(());
             }
             st.eval();
@@ -679,7 +820,7 @@ pub fn check(env: &Env, c: &Case, st: &mut Stats) -> CaseResult {
                     ));
                 }
             }
-            for q in ["3 foot -> m", "1 EUR", "USD", "1 + 1", "foot", "meter", "kg", "inch", "hour", "loopb"] {
+            for q in ["3 foot -> m", "1 EUR", "USD", "1 + 1", "foot", "meter", "kg", "inch", "hour", "loopb"].iter().chain(PROBES.iter()).cloned() {
                 match call(env, st, &json!({"cmd": "eval", "line": q, "save_prev": false, "pinned": true}), &format!("`{}` after {}", q, what))? {
                     Some(v) => {
                         if q == "3 foot -> m" && v["text"].as_str() != Some("0.9144 meter (length)") {
@@ -716,6 +857,9 @@ fn injection() -> impl Strategy<Value = Injection> {
         (0u8..6).prop_map(Injection::QuantityHugePower),
         (0u8..10).prop_map(Injection::ComputedZeroProperty),
         (0u8..8).prop_map(Injection::UnicodeNumericInNumber),
+        (0u8..4).prop_map(Injection::ZeroUnit),
+        (0u8..8).prop_map(Injection::ReservedName),
+        (0u8..5).prop_map(Injection::SymbolOddMolarMass),
     ]
 }
 
@@ -729,6 +873,7 @@ pub fn case_strategy(tier: Tier) -> impl Strategy<Value = Case> {
             .prop_map(|(db, injections, shuffle)| Case::Generated { db, injections, shuffle }),
         2 => (0u8..5, prop_oneof![3 => 10u32..2000, 1 => 2000u32..=10_000]).prop_map(|(kind, n)| Case::Scale { kind, n }),
         4 => proptest::collection::vec(any::<u32>(), 2..6).prop_map(|tape| Case::Currency { tape }),
+        3 => (any::<u32>(), 0u8..2, 0u8..5).prop_map(|(pick, via, form)| Case::SecondLoad { pick, via, form }),
     ]
 }
 
